@@ -130,7 +130,9 @@ def profiles_for(pid, tier):
         "C12": [("timer", dict(three, _mode={"timer": True}, timer=True, w_sweep=6, w_crash=0, w_reconnect=6, w_bigjump=2), N(160, 1500)),
                 ("direct", dict(three, w_sweep=8, w_bigjump=3), N(100, 800))],
         "C13": [("timer-quiesce", dict(three, _mode={"timer": True}, timer=True, w_sweep=5, quiesce=True, p_fault=0.25), N(160, 1500)),
-                ("crash-quiesce", dict(base, w_crash=4, w_sweep=4, quiesce=True, w_fault=2, usage=True), N(100, 800))],
+                ("crash-quiesce", dict(base, w_crash=4, w_sweep=4, quiesce=True, w_fault=2, usage=True), N(100, 800)),
+                ("odd-apps-shared-ids", dict(base, apps=["a", "", "ü"], sides=["s1", "s2"], names=["1", ""], shared_mailbox_ids=True,
+                                             client_mailboxes=["m1"], w_open=12, w_add=12, w_sweep=4, quiesce=True), N(100, 800))],
         "C14": [("dup", dict(three, w_reconnect=6, w_sweep=2), N(120, 1000))],
         "C15": [("usage", dict(three, usage=True, w_close=12, w_release=10, w_sweep=5, w_bigjump=3), N(200, 2000))],
         "C16": [("blur", dict(three, usage=True, blur="rand", w_close=12, w_release=10, w_sweep=5, w_bigjump=3), N(200, 2000)),
